@@ -16,7 +16,7 @@ from models import taproot_ref as TR
 from models.sighash_ref import tagged
 
 PROPERTY = "C14"
-LEVEL = "model_checking"
+LEVEL = "exploration"
 RULE = ("evals = (descriptor shape, key-expression spelling, network, index) derivations compared with hand assembly + one per corrupted string "
         "+ one per wallet position; non-trivial = an index past 7, a sorted/multi-key/taproot-tree shape, an origin spelling, a corrupted "
         "string, a wallet position other than (0, 0)")
